@@ -1,6 +1,7 @@
 (* C01 - A successful dump is a structurally sound minidump.  Property theorems only. *)
 From Coq Require Import List NArith Arith.
 From MDW Require Import Bytes MemWriter Writer Hoare MiniDump MiniDumpProofs SoundAbs SoundBridge GenTypes Generated PlanProofs Image ImageProofs ImageDirProofs.
+From MDW Require SectionOps.
 Import ListNotations.
 
 (* (1) The builder model: the reduced whole dump (header slot, thread list with stacks, contexts and
@@ -84,3 +85,13 @@ Theorem C01_whole_image_directory : forall c dirs log s',
   length dirs = NUM_DIRS.
 Proof. exact image_directory. Qed.
 Print Assumptions C01_whole_image_directory.
+
+(* (6) The memory-writer operations of every function that builds a stream (thread list, stack filling, module list and its
+   records, application memory, memory list, exception, system information, memory-information list, thread names, descriptors,
+   linker data, generate_dump itself with its flushes, the file and soft-error copies, the string writer, the directory section),
+   regenerated from the CURRENT source in textual order, are exactly the operations the whole-image model gives each function
+   (SectionOps.v names the combinator that models each); and generate_dump flushes once for the header and once per step of the
+   plan that writes. *)
+Theorem C01_section_operations_as_modelled : section_ops = SectionOps.expected_section_ops.
+Proof. exact SectionOps.section_ops_as_modelled. Qed.
+Print Assumptions C01_section_operations_as_modelled.
